@@ -3,7 +3,7 @@
 # property's quick check, undoes the change straight afterwards, and files everything under seeded/<id>/.
 export GOFLAGS=-mod=mod GOPROXY=off GOSUMDB=off GOTOOLCHAIN=local
 for id in "$@"; do
-  S=/tmp/seed-$id; D=/verif/seeded/$id
+  S=${SEEDPREFIX:-/tmp/seed}-$id; D=/verif/seeded/$id${SEEDSUFFIX:-}
   [ -f $S/patch.diff ] || { echo "$id: no patch"; continue; }
   [ -z "$(git -C /repo status --short)" ] || { echo "/repo not clean"; exit 2; }
   mkdir -p $D
@@ -26,7 +26,7 @@ id,D,demo,base,demow,demoo,out,code=sys.argv[1:9]
 m=json.load(open(D+'/meta.orig.json'))
 meta={"property":id,"breaks":m.get("what_it_breaks"),"needs_to_manifest":m.get("needs_to_manifest"),"files_changed":m.get("files_changed"),
  "demo_file_in_repo":demo,
- "what_i_ran":{"1_apply":"git -C /repo apply seeded/%s/patch.diff"%id,
+ "what_i_ran":{"1_apply":"git -C /repo apply %s/patch.diff"%D,
    "2_baseline_suite_with_change":"cd /repo && go test -vet=off -count=1 ./...  ->  "+base,
    "3_demo_with_change":"go test -run TestSeedDemo  ->  "+demow,
    "4_check":"./vcheck %s quick  (exit %s)"%(id,code), "4_check_output":out.split("\n"),
